@@ -11,6 +11,36 @@ package resilience
 // independent reference automaton written from the property statement and
 // doc/reference/controllers.md is stepped in lock-step and compared after
 // every event (admitted?, State()).
+//
+// Configurations (x-C08 widening). The policy is built either as a struct
+// literal or, as Pipeline.reload does, by resilience.NewPolicy from a raw map
+// (yaml round trip over Kind.DefaultPolicy + schema validation). Spec fields
+// may be LEFT OUT: the reference then uses the default documented in
+// doc/reference/controllers.md (failureRateThreshold 50, slowCallRateThreshold
+// 100, COUNT_BASED, slidingWindowSize 100, permittedNumberOfCallsInHalfOpenState
+// 10, maxWaitDurationInHalfOpenState 0, waitDurationInOpenState 60s).
+// Durations are spelled in every form time.ParseDuration documents ("1000ms",
+// "1s", "1m0s", "0.001s", "60000000us" ...). "Big" scenarios use windows up to
+// 100 calls / 200 seconds, up to 10 trials and up to ~260 calls so that the
+// documented default policy opens, half-opens and closes. Calls go through
+// circuitBreakerWrapper.Wrap or (same breaker, mixed) libcb's Execute.
+//
+// Decisions where the statement / the docs are silent:
+//   - slowCallDurationThreshold has no documented default: when it is left out
+//     a call that took any time at all MAY count as slow (result codes 3/4),
+//     a call of zero duration is not slow.
+//   - minimumNumberOfCalls: the reference table documents "Default is 10", the
+//     implementation uses 100, the statement names no default: with the field
+//     left out both are accepted (two candidate reference automata; the one
+//     that cannot explain an observation is dropped; observation probe
+//     cb.default_minimum_calls_differs_from_reference_table).
+//   - countingNetworkError is a spec field nothing documents: it is set at
+//     random and must not change anything the statement describes.
+//   - a call whose context is cancelled and that returns the context's error
+//     is a failed call like any other (docs: "failed means that backend filter
+//     returns non-empty results").
+//   - C08.passthrough: an admitted call "passes": the handler gets the caller's
+//     context and the caller gets the handler's own error / result / panic.
 
 import (
 	"context"
@@ -25,6 +55,12 @@ import (
 	"verif/simkit/sim"
 )
 
+// c08OmitMinCalls: also leave minimumNumberOfCalls out of the spec. The reference
+// table documents a default of 10, the implementation uses 100 and the statement
+// names no default: BOTH are accepted (two candidate reference automata), probe
+// cb.default_minimum_calls_differs_from_reference_table records which one held.
+const c08OmitMinCalls = true
+
 type c08Policy struct {
 	Fail      uint8  `json:"fail"`
 	Slow      uint8  `json:"slow"`
@@ -35,12 +71,22 @@ type c08Policy struct {
 	SlowMs    int64  `json:"slow_ms"`
 	MaxHalfMs int64  `json:"max_half_ms"`
 	WaitMs    int64  `json:"wait_ms"`
+	// Via: "" = struct literal + CreateWrapper; "new" = resilience.NewPolicy(raw map)
+	Via string `json:"via,omitempty"`
+	// Omit: spec fields left out (fail, slow, type, size, permitted, min_calls,
+	// slow_dur, max_half, wait); the fields above then hold the documented default.
+	// With a struct literal only the duration strings can be left out.
+	Omit []string `json:"omit,omitempty"`
+	// Spell: how duration strings are written (see c08Spell)
+	Spell int  `json:"spell,omitempty"`
+	CNE   bool `json:"counting_network_error,omitempty"`
 }
 
 type c08Op struct {
 	GapUs   int64  `json:"gap_us"`
 	DurUs   int64  `json:"dur_us"`
-	Outcome string `json:"outcome"` // ok | fail | panic
+	Outcome string `json:"outcome"`       // ok | fail | panic | cancel
+	API     string `json:"api,omitempty"` // "" = circuitBreakerWrapper.Wrap, "exec" = CircuitBreaker.Execute
 }
 
 type c08Caller struct {
@@ -51,6 +97,45 @@ type c08Scenario struct {
 	Policy   c08Policy   `json:"policy"`
 	OffsetUs int64       `json:"offset_us"`
 	Callers  []c08Caller `json:"callers"`
+}
+
+func c08Has(xs []string, x string) bool {
+	for _, s := range xs {
+		if s == x {
+			return true
+		}
+	}
+	return false
+}
+
+// c08Spell writes ms milliseconds as a duration string; every style denotes
+// exactly the same duration.
+func c08Spell(msv int64, style int) string {
+	d := time.Duration(msv) * time.Millisecond
+	switch style {
+	case 1:
+		return d.String() // "1m0s", "1.5s", "1ms", "0s"
+	case 2:
+		return fmt.Sprintf("%gs", float64(msv)/1000) // "0.001s", "60s"
+	case 3:
+		switch {
+		case msv == 0:
+			return "0"
+		case msv%3600000 == 0:
+			return fmt.Sprintf("%dh", msv/3600000)
+		case msv%60000 == 0:
+			return fmt.Sprintf("%dm", msv/60000)
+		case msv%1000 == 0:
+			return fmt.Sprintf("%ds", msv/1000)
+		}
+		return fmt.Sprintf("%dus", msv*1000)
+	case 4:
+		if msv >= 60000 {
+			return fmt.Sprintf("%dm%dms", msv/60000, msv%60000)
+		}
+		return fmt.Sprintf("%dµs", msv*1000)
+	}
+	return fmt.Sprintf("%dms", msv)
 }
 
 func c08Gen(rng *sim.Rand, tier string) interface{} {
@@ -68,25 +153,91 @@ func c08Gen(rng *sim.Rand, tier string) interface{} {
 	}
 	p.Fail, p.Slow = thr(), thr()
 	p.TimeBased = rng.Bool(0.4)
+	big := rng.Bool(0.06)
 	p.Size = uint32(rng.Range(1, 10))
 	if p.TimeBased {
 		p.Size = uint32(rng.Range(1, 5))
+	}
+	if big {
+		p.Size = uint32(rng.Pick(11, 16, 50, 64, 65, 100, rng.Range(11, 100)))
+		if p.TimeBased {
+			p.Size = uint32(rng.Pick(6, 10, 30, 60, 61, 100, 200))
+		}
 	}
 	p.MinCalls = uint32(rng.Range(0, int(p.Size)+2))
 	if rng.Bool(0.3) {
 		p.MinCalls = uint32(rng.Range(0, 3))
 	}
+	if big && p.TimeBased {
+		p.MinCalls = uint32(rng.Pick(0, 1, 5, 10, 20, 50, 100))
+	}
 	p.Permitted = uint32(rng.Range(1, 5))
-	p.SlowMs = int64(rng.Pick(10, 100, 1000))
-	p.WaitMs = int64(rng.Pick(0, 1, 1000, 1000, 7000, 60000))
-	p.MaxHalfMs = int64(rng.Pick(0, 0, 1, 1000, 7000))
+	if big {
+		p.Permitted = uint32(rng.Pick(1, 3, 5, 8, 10, 10))
+	}
+	p.SlowMs = int64(rng.Pick(10, 100, 1000, 1500, 30000))
+	p.WaitMs = int64(rng.Pick(0, 1, 1000, 1000, 1500, 7000, 60000, 120000))
+	p.MaxHalfMs = int64(rng.Pick(0, 0, 1, 1000, 1500, 7000, 60000))
+	p.Spell = rng.Pick(0, 0, 1, 2, 3, 4)
+	p.CNE = rng.Bool(0.3)
+	if rng.Bool(0.4) {
+		p.Via = "new"
+		// leave fields out: the documented defaults apply
+		if rng.Bool(0.6) {
+			cands := []string{"fail", "slow", "type", "permitted", "slow_dur", "max_half", "wait", "wait", "size"}
+			if c08OmitMinCalls {
+				cands = append(cands, "min_calls")
+			}
+			n := rng.Pick(1, 1, 2, 3, len(cands))
+			for _, i := range rng.Perm(len(cands))[:n] {
+				if !c08Has(p.Omit, cands[i]) {
+					p.Omit = append(p.Omit, cands[i])
+				}
+			}
+			if rng.Bool(0.1) { // nothing but kind and name (and minimumNumberOfCalls)
+				p.Omit = append([]string(nil), "fail", "slow", "type", "size", "permitted", "slow_dur", "max_half", "wait")
+				if c08OmitMinCalls {
+					p.Omit = append(p.Omit, "min_calls")
+				}
+			}
+		}
+	} else if rng.Bool(0.3) {
+		p.Omit = append(p.Omit, rng.PickStr("wait", "slow_dur", "max_half"))
+	}
+	c08Defaults(p)
+	if big && p.MinCalls > p.Size+2 {
+		p.MinCalls = uint32(rng.Range(0, int(p.Size)+2))
+	}
 	sc.OffsetUs = int64(rng.Pick(0, 1, 300000, 999999, rng.Intn(1000000)))
 	nc := rng.Range(1, 5)
 	total := rng.Range(8, 80)
+	// enough calls to fill minimumNumberOfCalls, open, and run the trials
+	if need := int(p.MinCalls) + int(p.Permitted) + 10; need > total && p.MinCalls <= p.Size && need < 250 {
+		total = rng.Range(need, need+50)
+		big = true
+	}
+	if c08Has(p.Omit, "min_calls") && p.Via == "new" && p.Size >= 100 && rng.Bool(0.6) {
+		// long enough for either acceptable default of minimumNumberOfCalls (10 / 100)
+		total = rng.Range(112, 170)
+		big = true
+	}
 	failBias := rng.Pick(10, 30, 50, 70, 90)
+	if big && rng.Bool(0.5) {
+		failBias = rng.Pick(70, 90, 100)
+	}
 	slowBias := rng.Pick(0, 5, 20, 50)
+	execPct := rng.Pick(0, 0, 10, 50, 100)
+	cancelPct := rng.Pick(0, 0, 10, 30)
+	slowUnknown := c08Has(p.Omit, "slow_dur")
 	gaps := []int64{0, 0, 0, 1, 1000, 500000, 1000000, 2000000, p.WaitMs * 1000, p.WaitMs*1000 - 1, p.WaitMs*1000 + 1,
 		p.MaxHalfMs * 1000, p.MaxHalfMs*1000 + 1, int64(p.Size) * 1000000, int64(p.Size)*1000000 + 1, int64(p.Size+1) * 1000000, 61000000}
+	if big {
+		// many calls per window: mostly back to back
+		gaps = append(gaps, 0, 0, 0, 0, 0, 0, 1, 1000, 1000, 200000, 1000000, 0, 0, 0, 0)
+		if p.TimeBased {
+			gaps = append(gaps, 2*int64(p.Size)*1000000, 2*int64(p.Size)*1000000+500000)
+		}
+	}
 	for c := 0; c < nc; c++ {
 		var cl c08Caller
 		n := total / nc
@@ -100,26 +251,72 @@ func c08Gen(rng *sim.Rand, tier string) interface{} {
 				g = 0
 			}
 			op.GapUs = g
+			if rng.Intn(100) < execPct {
+				op.API = "exec"
+			}
+			fast := func() int64 {
+				if slowUnknown && rng.Bool(0.8) {
+					return 0
+				}
+				return int64(rng.Pick(0, 1, 100, int(p.SlowMs*1000/4)))
+			}
 			x := rng.Intn(100)
 			switch {
 			case x < failBias:
 				op.Outcome = "fail"
 				if rng.Bool(0.1) {
 					op.Outcome = "panic"
+				} else if op.API == "" && rng.Intn(100) < cancelPct {
+					op.Outcome = "cancel"
 				}
-				op.DurUs = int64(rng.Pick(0, 1, 100, int(p.SlowMs*1000/4)))
+				op.DurUs = fast()
 			case x < failBias+slowBias:
 				op.Outcome = "ok"
 				op.DurUs = p.SlowMs * 1000 * int64(rng.Pick(2, 3, 10))
 			default:
 				op.Outcome = "ok"
-				op.DurUs = int64(rng.Pick(0, 1, 100, int(p.SlowMs*1000/4)))
+				op.DurUs = fast()
 			}
 			cl.Ops = append(cl.Ops, op)
 		}
 		sc.Callers = append(sc.Callers, cl)
 	}
 	return sc
+}
+
+// c08Defaults overwrites the fields that the spec leaves out with the defaults
+// documented in doc/reference/controllers.md ("CircuitBreaker Policy" table).
+// slowCallDurationThreshold has no documented default: SlowMs is then only a
+// scale for the generator, the oracle treats slowness as unknown.
+func c08Defaults(p *c08Policy) {
+	structLit := p.Via != "new"
+	for _, f := range p.Omit {
+		switch f {
+		case "wait":
+			p.WaitMs = 60000
+		case "max_half":
+			p.MaxHalfMs = 0
+		case "slow_dur":
+			p.SlowMs = 1000
+		}
+		if structLit {
+			continue // a zero number in a struct literal is a zero, not "left out"
+		}
+		switch f {
+		case "fail":
+			p.Fail = 50
+		case "slow":
+			p.Slow = 100
+		case "type":
+			p.TimeBased = false
+		case "size":
+			p.Size = 100
+		case "permitted":
+			p.Permitted = 10
+		case "min_calls":
+			p.MinCalls = 10
+		}
+	}
 }
 
 // ---- reference automaton --------------------------------------------------
@@ -350,35 +547,172 @@ func implState(s libcb.State) int {
 	return -1
 }
 
-func ms(v int64) string { return fmt.Sprintf("%dms", v) }
+type c08CtxKey struct{}
+
+// c08Build creates the breaker the way the scenario says. Everything it
+// hands to easegress is a documented, valid configuration.
+func c08Build(r *sim.Run, p c08Policy) (w circuitBreakerWrapper, ok bool) {
+	omit := func(f string) bool { return c08Has(p.Omit, f) }
+	sp := func(v int64) string {
+		s := c08Spell(v, p.Spell)
+		if d, err := time.ParseDuration(s); err != nil || d != time.Duration(v)*time.Millisecond {
+			return fmt.Sprintf("%dms", v) // harness self-check: never hand over a spelling that means something else
+		}
+		return s
+	}
+	wt := "COUNT_BASED"
+	if p.TimeBased {
+		wt = "TIME_BASED"
+	}
+	if p.Via != "new" {
+		pol := &CircuitBreakerPolicy{
+			SlidingWindowType: wt, FailureRateThreshold: p.Fail, SlowCallRateThreshold: p.Slow,
+			SlidingWindowSize: p.Size, PermittedNumberOfCallsInHalfOpen: p.Permitted, MinimumNumberOfCalls: p.MinCalls,
+			CountingNetworkError: p.CNE,
+		}
+		if !omit("slow_dur") {
+			pol.SlowCallDurationThreshold = sp(p.SlowMs)
+		}
+		if !omit("wait") {
+			pol.WaitDurationInOpen = sp(p.WaitMs)
+		}
+		if !omit("max_half") && (p.MaxHalfMs > 0 || p.Spell != 0) {
+			pol.MaxWaitDurationInHalfOpen = sp(p.MaxHalfMs) // incl. an explicit zero ("0s"): documented as "wait infinitely"
+		}
+		return pol.CreateWrapper().(circuitBreakerWrapper), true
+	}
+	raw := map[string]interface{}{"kind": "CircuitBreaker", "name": "c08cb"}
+	set := func(f, key string, v interface{}) {
+		if !omit(f) {
+			raw[key] = v
+		}
+	}
+	set("type", "slidingWindowType", wt)
+	set("fail", "failureRateThreshold", int(p.Fail))
+	set("slow", "slowCallRateThreshold", int(p.Slow))
+	set("size", "slidingWindowSize", int(p.Size))
+	set("permitted", "permittedNumberOfCallsInHalfOpenState", int(p.Permitted))
+	set("min_calls", "minimumNumberOfCalls", int(p.MinCalls))
+	set("slow_dur", "slowCallDurationThreshold", sp(p.SlowMs))
+	set("wait", "waitDurationInOpenState", sp(p.WaitMs))
+	if p.MaxHalfMs > 0 || p.Spell != 0 {
+		set("max_half", "maxWaitDurationInHalfOpenState", sp(p.MaxHalfMs))
+	}
+	if p.CNE {
+		raw["countingNetworkError"] = true
+	}
+	pol, err := NewPolicy(raw)
+	if err != nil {
+		r.Violate("C08.policy-rejected", "resilience.NewPolicy rejected a documented circuit breaker spec %v: %v", raw, err)
+		return w, false
+	}
+	cbp, isCB := pol.(*CircuitBreakerPolicy)
+	if !isCB {
+		r.Violate("C08.policy-rejected", "resilience.NewPolicy returned %T for kind CircuitBreaker", pol)
+		return w, false
+	}
+	w, ok = cbp.CreateWrapper().(circuitBreakerWrapper)
+	return w, ok
+}
 
 func c08Exec(r *sim.Run, sci interface{}) {
 	sc := sci.(*c08Scenario)
 	p := sc.Policy
-	if p.Permitted == 0 || p.Size == 0 || p.Fail == 0 || p.Slow == 0 || p.Fail > 100 || p.Slow > 100 || p.SlowMs <= 0 {
+	c08Defaults(&p)
+	if p.Permitted == 0 || p.Size == 0 || p.Fail == 0 || p.Slow == 0 || p.Fail > 100 || p.Slow > 100 || p.SlowMs <= 0 ||
+		p.WaitMs < 0 || p.MaxHalfMs < 0 || p.Size > 100000 || p.Permitted > 100000 {
 		return
 	}
 	time.Sleep(time.Duration(sc.OffsetUs) * time.Microsecond)
-	pol := &CircuitBreakerPolicy{
-		SlidingWindowType: "COUNT_BASED", FailureRateThreshold: p.Fail, SlowCallRateThreshold: p.Slow,
-		SlidingWindowSize: p.Size, PermittedNumberOfCallsInHalfOpen: p.Permitted, MinimumNumberOfCalls: p.MinCalls,
-		SlowCallDurationThreshold: ms(p.SlowMs), WaitDurationInOpen: ms(p.WaitMs),
+	w, built := c08Build(r, p)
+	if !built {
+		return
 	}
-	if p.TimeBased {
-		pol.SlidingWindowType = "TIME_BASED"
+	slowUnknown := c08Has(p.Omit, "slow_dur")
+	defaultMin := p.Via == "new" && c08Has(p.Omit, "min_calls")
+	// candidate reference automata: one, or - with minimumNumberOfCalls left out - one per
+	// acceptable default (slot 0: the reference table's 10, slot 1: 100). A candidate that
+	// cannot explain an observation is dropped; a violation needs all of them to fail.
+	refs := []*c08Ref{{p: p, state: refClosed, since: time.Now()}}
+	if defaultMin {
+		p100 := p
+		p100.MinCalls = 100
+		refs = append(refs, &c08Ref{p: p100, state: refClosed, since: refs[0].since})
 	}
-	if p.MaxHalfMs > 0 {
-		pol.MaxWaitDurationInHalfOpen = ms(p.MaxHalfMs)
+	dead := make([]bool, len(refs))
+	prim := func() int {
+		for i := range refs {
+			if !dead[i] {
+				return i
+			}
+		}
+		return 0
 	}
-	w := pol.CreateWrapper().(circuitBreakerWrapper)
-	ref := &c08Ref{p: p, state: refClosed, since: time.Now()}
+	stepAcquire := func(admitted bool, got int, now time.Time) (bool, []c08Ans) {
+		var first []c08Ans
+		matched, any := [2]bool{}, false
+		for i, m := range refs {
+			if dead[i] {
+				continue
+			}
+			ans := m.acquire(now)
+			if first == nil {
+				first = ans
+			}
+			for _, a := range ans {
+				if a.admitted == admitted && a.state == got {
+					m.applyAcquire(a, now)
+					matched[i], any = true, true
+					break
+				}
+			}
+		}
+		if any {
+			for i := range refs {
+				if !dead[i] && !matched[i] {
+					dead[i] = true
+				}
+			}
+		}
+		return any, first
+	}
+	stepRecord := func(eps [2]int, result, got int, now time.Time) (bool, []int) {
+		var first []int
+		matched, any := [2]bool{}, false
+		for i, m := range refs {
+			if dead[i] {
+				continue
+			}
+			allowed := m.record(eps[i], result, now)
+			if first == nil {
+				first = allowed
+			}
+			for _, s := range allowed {
+				if s == got {
+					m.applyRecord(got, now)
+					matched[i], any = true, true
+					break
+				}
+			}
+		}
+		if any {
+			for i := range refs {
+				if !dead[i] && !matched[i] {
+					dead[i] = true
+				}
+			}
+		}
+		return any, first
+	}
 	var hist strings.Builder
 	reachedOpen, reachedHalf, inflightMax, inflight := false, false, 0, 0
-	errFail := errors.New("backend failure")
+	var recovered, wrapped, execAdmitted, execRejected, cancelRecorded, bigVerdict bool
+	closedRecords := 0 // results recorded in the current CLOSED epoch
+	closedEpoch := 0
 	skip := false
 
 	check := func(what string) {
-		if got := implState(w.State()); got != ref.state {
+		if got, ref := implState(w.State()), refs[prim()]; got != ref.state {
 			r.Violate("C08.state", "%s: breaker is %v, reference automaton is %s\nhistory: %s", what, w.State(), refNames[ref.state], hist.String())
 		}
 	}
@@ -392,9 +726,20 @@ func c08Exec(r *sim.Run, sci interface{}) {
 				}
 				r.Sleep(time.Duration(op.GapUs) * time.Microsecond)
 				op := op
+				if op.DurUs < 0 {
+					op.DurUs = 0
+				}
+				name := fmt.Sprintf("c%d.%d", ci, oi)
+				useExec := op.API == "exec"
+				if useExec && op.Outcome == "cancel" {
+					op.Outcome = "fail" // Execute takes no context
+				}
 				admitted := false
-				var ep int
+				var eps [2]int
 				var measured time.Duration
+				myErr := errors.New("backend failure " + name)
+				myRes := &name
+				callerCtx, cancel := context.WithCancel(context.WithValue(context.Background(), c08CtxKey{}, myRes))
 				handler := func(ctx context.Context) error {
 					// no gate between AcquirePermission returning and this
 					// point: the admission is logged in its effect order
@@ -403,20 +748,18 @@ func c08Exec(r *sim.Run, sci interface{}) {
 					if skip {
 						return nil
 					}
-					ans := ref.acquire(now)
-					ok := false
-					for _, a := range ans {
-						if a.admitted && a.state == implState(w.State()) {
-							ref.applyAcquire(a, now)
-							ok = true
-							break
-						}
+					ok, ans := stepAcquire(true, implState(w.State()), now)
+					for i, m := range refs {
+						eps[i] = m.epoch
 					}
-					ep = ref.epoch
-					fmt.Fprintf(&hist, "c%d.%d:admit@%v[%s] ", ci, oi, r.Now(), refNames[ref.state])
-					r.Eventf("c%d.%d admit %v", ci, oi, w.State())
+					ref := refs[prim()]
+					fmt.Fprintf(&hist, "%s:admit@%v[%s] ", name, r.Now(), refNames[ref.state])
+					r.Eventf("%s admit %v", name, w.State())
 					if !ok {
 						r.Violate("C08.admission", "call admitted in state %v at %v, reference (%s) allows %v\nhistory: %s", w.State(), r.Now(), refNames[ref.state], ans, hist.String())
+					}
+					if !useExec && (ctx == nil || ctx.Value(c08CtxKey{}) != interface{}(myRes)) {
+						r.Violate("C08.passthrough", "call %s: the wrapped handler did not receive the caller's context\nhistory: %s", name, hist.String())
 					}
 					if ref.state == refHalfOpen {
 						reachedHalf = true
@@ -431,41 +774,50 @@ func c08Exec(r *sim.Run, sci interface{}) {
 					inflight--
 					switch op.Outcome {
 					case "fail":
-						return errFail
+						return myErr
 					case "panic":
 						panic("backend panic")
+					case "cancel":
+						// the client goes away while the call is in flight; the call ends with the context's error
+						cancel()
+						return context.Canceled
 					}
 					return nil
 				}
 				var err error
+				var res interface{}
+				panicked := false
 				func() {
 					defer func() {
 						if p := recover(); p != nil {
 							if p != "backend panic" {
 								panic(p)
 							}
-							err = errFail
+							panicked = true
 						}
 					}()
-					err = w.Wrap(handler)(context.Background())
+					if useExec {
+						res, err = w.Execute(func() (interface{}, error) { return myRes, handler(nil) })
+					} else {
+						err = w.Wrap(handler)(callerCtx)
+					}
 				}()
+				cancel()
 				now := time.Now()
 				if skip {
 					return
 				}
 				if !admitted {
-					ans := ref.acquire(now)
-					ok := false
-					for _, a := range ans {
-						if !a.admitted && a.state == implState(w.State()) {
-							ref.applyAcquire(a, now)
-							ok = true
-							break
+					ok, ans := stepAcquire(false, implState(w.State()), now)
+					ref := refs[prim()]
+					fmt.Fprintf(&hist, "%s:reject@%v[%s] ", name, r.Now(), refNames[ref.state])
+					r.Eventf("%s reject %v", name, w.State())
+					if useExec {
+						execRejected = true
+						if err == nil || panicked {
+							r.Violate("C08.admission", "Execute did not run the function but returned error %v (panicked: %v)", err, panicked)
 						}
-					}
-					fmt.Fprintf(&hist, "c%d.%d:reject@%v[%s] ", ci, oi, r.Now(), refNames[ref.state])
-					r.Eventf("c%d.%d reject %v", ci, oi, w.State())
-					if err != ErrShortCircuited {
+					} else if err != ErrShortCircuited {
 						r.Violate("C08.admission", "handler not invoked but error is %v", err)
 					}
 					if !ok {
@@ -473,9 +825,36 @@ func c08Exec(r *sim.Run, sci interface{}) {
 					}
 					continue
 				}
+				// an admitted call passes: its own outcome comes back to the caller
+				switch {
+				case r.Violated():
+				case op.Outcome == "panic" && !panicked:
+					r.Violate("C08.passthrough", "call %s (%s): the handler panicked but the caller saw a normal return (err %v)\nhistory: %s", name, op.API, err, hist.String())
+				case op.Outcome != "panic" && panicked:
+					r.Violate("C08.passthrough", "call %s (%s): the caller saw a panic the handler did not raise\nhistory: %s", name, op.API, hist.String())
+				case op.Outcome == "fail" && err != myErr, op.Outcome == "ok" && err != nil, op.Outcome == "cancel" && err != context.Canceled:
+					r.Violate("C08.passthrough", "call %s (%s) ended with outcome %q but the caller got error %v\nhistory: %s", name, op.API, op.Outcome, err, hist.String())
+				case useExec && op.Outcome == "ok" && res != interface{}(myRes):
+					r.Violate("C08.passthrough", "call %s: Execute did not return the function's result\nhistory: %s", name, hist.String())
+				}
+				if useExec {
+					execAdmitted = true
+				}
 				result := 0
 				slowThr := time.Duration(p.SlowMs) * time.Millisecond
-				if op.Outcome != "ok" {
+				switch {
+				case slowUnknown:
+					// no documented default for slowCallDurationThreshold: a call that
+					// took any time at all may count as slow
+					if op.Outcome != "ok" {
+						result = 2
+						if measured > 0 {
+							result = 3
+						}
+					} else if measured > 0 {
+						result = 4
+					}
+				case op.Outcome != "ok":
 					result = 2
 					if measured >= slowThr {
 						// a failed call that was also slow: the statement does not say
@@ -483,55 +862,94 @@ func c08Exec(r *sim.Run, sci interface{}) {
 						r.Probe("cb.failed_and_slow_result")
 						result = 3
 					}
-				} else if measured == slowThr {
+				case measured == slowThr:
 					// doc: slow when duration > threshold; code: >=
 					r.Probe("cb.duration_equals_threshold")
 					result = 4
-				} else if measured > slowThr {
+				case measured > slowThr:
 					result = 1
 				}
 				if skip {
 					return
 				}
-				allowed := ref.record(ep, result, now)
-				got := implState(w.State())
-				ok := false
-				for _, s := range allowed {
-					if s == got {
-						ok = true
+				ref, ep := refs[prim()], eps[prim()]
+				if ep == ref.epoch && ref.state == refClosed {
+					if closedEpoch != ref.epoch {
+						closedEpoch, closedRecords = ref.epoch, 0
+					}
+					closedRecords++
+					if !p.TimeBased && closedRecords > int(p.Size) {
+						wrapped = true
 					}
 				}
-				fmt.Fprintf(&hist, "c%d.%d:rec%d(ep%d/%d)@%v[%v] ", ci, oi, result, ep, ref.epoch, r.Now(), w.State())
-				r.Eventf("c%d.%d record %d -> %v", ci, oi, result, w.State())
+				wasHalf := ep == ref.epoch && ref.state == refHalfOpen
+				if op.Outcome == "cancel" && ep == ref.epoch {
+					cancelRecorded = true
+				}
+				got := implState(w.State())
+				ok, allowed := stepRecord(eps, result, got, now)
+				ref, ep = refs[prim()], eps[prim()]
+				fmt.Fprintf(&hist, "%s:rec%d(ep%d/%d)@%v[%v] ", name, result, ep, ref.epoch, r.Now(), w.State())
+				r.Eventf("%s record %d -> %v", name, result, w.State())
 				if !ok {
 					names := []string{}
 					for _, s := range allowed {
 						names = append(names, refNames[s])
 					}
-					r.Violate("C08.state", "after recording result %d (admitted in epoch %d, current %d) breaker is %v, reference allows %v\nhistory: %s", result, ep, ref.epoch, w.State(), names, hist.String())
+					r.Violate("C08.state", "after recording result %d (admitted in epoch %d, current %d) breaker is %v, reference allows %v\npolicy %+v\nhistory: %s", result, ep, ref.epoch, w.State(), names, p, hist.String())
 					return
 				}
-				ref.applyRecord(got, now)
 				if ref.state == refOpen {
 					reachedOpen = true
+				}
+				if wasHalf && ref.state != refHalfOpen {
+					if ref.state == refClosed {
+						recovered = true
+					}
+					if p.Permitted > 5 {
+						bigVerdict = true
+					}
 				}
 				check("after record")
 			}
 		})
 	}
 	r.WaitTasks()
-	if ref.ambiguous > 0 {
-		r.Probe("cb.verdict_ambiguous_by_reading")
+	probe := func(b bool, name string) {
+		if b {
+			r.Probe(name)
+		}
 	}
-	if reachedOpen {
-		r.Probe("cb.reached_open")
+	probe(refs[prim()].ambiguous > 0, "cb.verdict_ambiguous_by_reading")
+	if defaultMin {
+		// observation, not a violation: the statement names no default (framework owner's decision)
+		probe(dead[0], "cb.default_minimum_calls_differs_from_reference_table")
+		probe(dead[1], "cb.default_minimum_calls_as_in_reference_table")
+		probe(!dead[0] && !dead[1], "cb.default_minimum_calls_undecided")
 	}
-	if reachedHalf {
-		r.Probe("cb.reached_half_open")
+	probe(reachedOpen, "cb.reached_open")
+	probe(reachedHalf, "cb.reached_half_open")
+	probe(inflightMax >= 2, "cb.concurrent_calls_in_flight")
+	probe(recovered, "cb.half_open_recovered_to_closed")
+	probe(p.Via == "new", "cb.policy_via_newpolicy")
+	for _, f := range p.Omit {
+		if p.Via == "new" || f == "wait" || f == "slow_dur" || f == "max_half" {
+			probe(true, "cb.omitted."+f)
+		}
 	}
-	if inflightMax >= 2 {
-		r.Probe("cb.concurrent_calls_in_flight")
-	}
+	probe(p.Via == "new" && len(p.Omit) >= 8 && reachedOpen && reachedHalf, "cb.documented_default_policy_opened_and_half_opened")
+	probe(c08Has(p.Omit, "wait") && reachedHalf, "cb.default_open_wait_elapsed")
+	probe(slowUnknown, "cb.slow_threshold_left_out")
+	probe(p.Spell != 0, fmt.Sprintf("cb.duration_spelling_%d", p.Spell))
+	probe(p.MaxHalfMs == 0 && p.Spell != 0 && !c08Has(p.Omit, "max_half"), "cb.explicit_zero_max_wait_in_half_open")
+	probe(p.CNE, "cb.counting_network_error_set")
+	probe(p.Size > 10 && reachedOpen, "cb.big_window_opened")
+	probe(p.Size > 10 && p.TimeBased && reachedOpen, "cb.big_time_window_opened")
+	probe(wrapped, "cb.count_window_wrapped_around")
+	probe(bigVerdict, "cb.half_open_verdict_with_more_than_5_trials")
+	probe(execAdmitted, "cb.execute_api_admitted")
+	probe(execRejected, "cb.execute_api_rejected")
+	probe(cancelRecorded, "cb.cancelled_call_recorded")
 	if reachedOpen && reachedHalf {
 		r.Nontrivial()
 	}
@@ -557,10 +975,16 @@ func TestVerifC08(t *testing.T) {
 		New:      func() interface{} { return &c08Scenario{} },
 		Exec:     c08Exec,
 		MaxSteps: 20000,
-		Rule: "scenario = drawn policy (thresholds, COUNT/TIME window, sizes, durations) + 1-5 caller tasks with gaps/durations/outcomes incl. exact boundary gaps; " +
+		Rule: "scenario = drawn policy (thresholds, COUNT/TIME window 1-10 calls / 1-5 s and, in 'big' runs, up to 100 calls / 200 s with up to 10 trials and up to ~250 calls; durations incl. 1.5s/1m/2m) built as a struct literal or by resilience.NewPolicy from a raw map with spec fields left out (documented defaults) and durations spelled in every ParseDuration form; " +
+			"1-5 caller tasks with gaps/durations/outcomes (ok, slow, fail, panic, cancelled context) incl. exact boundary gaps, through Wrap or libcb Execute; " +
 			"non-trivial = the breaker reached OPEN and HALF_OPEN; distinct = distinct (policy, event-kind history with states) signatures",
-		Real:        []string{"pkg/util/circuitbreaker (CircuitBreaker, windows)", "pkg/resilience (CircuitBreakerPolicy.CreateWrapper, circuitBreakerWrapper.Wrap)"},
-		Stub:        []string{"callers and backend outcome script (harness)", "sync.Mutex -> simsync.Mutex (same semantics + gates)"},
-		Assumptions: []string{"AcquirePermission/RecordResult take effect in the order their results are observed by the single-P cooperative schedule", "slow = duration >= 2x threshold, fast <= threshold/4 (the exact-threshold case is not generated: doc says '>' and code says '>=')"},
+		Real: []string{"pkg/util/circuitbreaker (CircuitBreaker incl. Execute, windows)", "pkg/resilience (NewPolicy, CircuitBreakerKind.DefaultPolicy, CircuitBreakerPolicy.CreateWrapper, circuitBreakerWrapper.Wrap)"},
+		Stub: []string{"callers and backend outcome script (harness)", "sync.Mutex -> simsync.Mutex (same semantics + gates)"},
+		Assumptions: []string{"AcquirePermission/RecordResult take effect in the order their results are observed by the single-P cooperative schedule",
+			"slow = duration >= 2x threshold, fast <= threshold/4 (a duration exactly on the threshold may count either way: doc says '>' and code says '>=')",
+			"spec fields left out take the defaults documented in doc/reference/controllers.md; slowCallDurationThreshold has no documented default, so with it left out any call of non-zero duration may or may not count as slow; with minimumNumberOfCalls left out both the documented default 10 and the implemented 100 are accepted (probe cb.default_minimum_calls_differs_from_reference_table)",
+			"a call that ends with an error after its context was cancelled is a failed call",
+			"C08.passthrough: an admitted call gets the caller's context and the caller gets the call's own error / result / panic",
+		},
 	})
 }
